@@ -2481,7 +2481,8 @@ impl Formatter {
   pub fn swizzle(&mut self, node: &Vec<Identifier>) -> String {
     let mut src = "".to_string();
     for (i, ident) in node.iter().enumerate() {
-      let s = self.dot(ident);
+      // text mode: one leading period, then the names separated by commas (x.a,b)
+      let s = if i == 0 || self.html { self.dot(ident) } else { ident.to_string() };
       if i == 0 {
         src = format!("{}", s);
       } else {
